@@ -60,6 +60,25 @@ Proof. seg_inst unf. Qed.
 Proof. actual_inst unf. Qed.
 """),
 ]
+INST_FLOAT = ("Inst_C12_float.v", "From LNML Require Import Proofs.GeomPFloat.\n",
+              """Ltac unfl := cbv [run evalc eval gpow env_seg nth RndA ar_add ar_sub ar_mul ar_div ar_neg ar_ofZ ar_pi ar_sqrt ar_powhalf
+   ar_eqb fl_length fl_volume fl_area p_x p_y p_z p_d].
+(* the regenerated terms, read with every operation rounded, are the expressions analysed in Proofs/GeomPFloat.v *)
+Lemma length_fl : length_is_fl Gen_C12.table.
+Proof. intros rnd ph [px py pz pd] [dx dy dz dd]. unf. unfl. reflexivity. Qed.
+Lemma distance_fl : distance_is_fl Gen_C12.table.
+Proof. intros rnd ph [px py pz pd] [dx dy dz dd]. unf. unfl. reflexivity. Qed.
+Lemma volume_fl : volume_is_fl Gen_C12.table.
+Proof.
+  intros rnd ph [px py pz pd] [dx dy dz dd] H. unfold coincideb in H. cbv [p_x p_y p_z] in H.
+  unf. unfl. cbv [negb]. rewrite H. reflexivity.
+Qed.
+Lemma area_fl : area_is_fl Gen_C12.table.
+Proof.
+  intros rnd ph [px py pz pd] [dx dy dz dd] H. unfold coincideb in H. cbv [p_x p_y p_z] in H.
+  unf. unfl. cbv [negb]. rewrite H. reflexivity.
+Qed.
+""")
 INST_CELL = ("Inst_C12_cell.v", "From Run Require Import Inst_C12_length Inst_C12_volume Inst_C12_area Inst_C12_distance Inst_C12_actual.\n",
              """Ltac rw := rewrite ?length_ok, ?volume_ok, ?area_ok, ?distance_ok.
 Lemma cell_length_ok : forall chain, run_cp RA Gen_C12.table (g_cell_length Gen_C12.table) chain = ref_cell ref_length chain.
@@ -106,9 +125,10 @@ def fix_axiom_parse(ck):
     if "_axioms" in ck.axioms:
         ck.axioms["_axioms"] = ax
     ck.obligations = [o for o in ck.obligations if not (o["name"] == "gate:axioms")]
-    allowed = ("sig_forall_dec", "sig_not_dec", "functional_extensionality_dep")
+    # Classical_Prop.classic comes in with Flocq's relative-error lemmas (C12_float_rounding_length only)
+    allowed = ("sig_forall_dec", "sig_not_dec", "functional_extensionality_dep", "classic")
     bad = [a for a in ax if a.split(".")[-1] not in allowed]
-    ck.oblige("gate:axioms-are-stdlib-reals-and-funext-only", not bad and len(ax) > 0, "axioms: " + ",".join(ax), kind="gate")
+    ck.oblige("gate:axioms-are-stdlib-reals-funext-and-classic-only", not bad and len(ax) > 0, "axioms: " + ",".join(ax), kind="gate")
 
 
 # ------------------------------------------------------------------ generators
@@ -533,10 +553,16 @@ def run(ck):
                   "translators/tr_exprs.py (python ast; symbolic execution of straight-line code, if/elif/else, return, raise; "
                   "x**2 and x**3 read as repeated multiplication, x**0.5 and math.sqrt as the square root)",
                   "axioms (Print Assumptions): ClassicalDedekindReals.sig_forall_dec, ClassicalDedekindReals.sig_not_dec, "
-                  "FunctionalExtensionality.functional_extensionality_dep (standard-library real numbers)",
+                  "FunctionalExtensionality.functional_extensionality_dep (standard-library real numbers); "
+                  "Classical_Prop.classic (through Flocq's relative_error_N_FLT_ex, in C12_float_rounding_length only)",
+                  "Flocq 'round radix2 (FLT_exp (-1074) 53) ZnearestE' as binary64 round-to-nearest-even (unbounded exponent: "
+                  "overflow excluded by the range hypothesis); libm pow(x, 0.5) within relative error 2^-52 (hypothesis "
+                  "powhalf_accurate); CPython's x**2 = correctly rounded x*x (checked bit for bit by the correspondence)",
                   "get_segment(id) finds the segment with that id (the chain of ancestors is followed by the harness)",
                   "python decimal (60 digits) and fractions for the reference values of the witness search"]
-    ck.assumptions = ["the float<->real distance is measured (<= 1e-13 relative against the 60-digit closed form from the exact "
+    ck.assumptions = ["length / distance_to (6), frustum volume (16) and frustum area (13 units of 2^-53 relative): the forward error is PROVED "
+                      "(C12_float_rounding_length / _volume / _area) and the measured error of CPython must lie within it; for the sphere "
+                      "branch and the cell-level getters the float<->real distance is measured (<= 1e-13 relative against the 60-digit closed form from the exact "
                       "input doubles, condition-number scaled for inherited proximal points), not proved",
                       "libm pow(x,2), pow(x,3), pow(x,0.5) agree with x*x, x*x*x, sqrt(x) to 2^-40 relative "
                       "(bit-exact agreement is counted and reported)",
@@ -551,8 +577,8 @@ def run(ck):
         ck.oblige("Gen_C12.v:compiles", ok, out[-1500:], kind="translate")
         if ok:
             have_model = True
-            paths = [(ck.gen_v(n, INST_HEAD + imp + body)) for n, imp, body in INST_FILES]
-            with ThreadPoolExecutor(max_workers=6) as ex:
+            paths = [(ck.gen_v(n, INST_HEAD + imp + body)) for n, imp, body in INST_FILES + [INST_FLOAT]]
+            with ThreadPoolExecutor(max_workers=7) as ex:
                 oks = list(ex.map(lambda pth: ck.compile_obligations(pth, kind="instance", timeout=300)[0], paths))
             iok = all(oks)
             for n, imp, body in (INST_CELL, INST_ALL):
@@ -639,6 +665,47 @@ def run(ck):
                            "Segment.%s differs from the closed form (60-digit reference from the exact input doubles)" % k,
                            input={"proximal": c[0:4], "distal": c[4:8], "class": tag},
                            expected='%.25E' % ref[k] if not isinstance(ref[k], str) else ref[k], observed=repr(vals[k]), broken="Inst_C12_%s.v:%s_ok" % (k, k))
+        # C12_float_rounding_length: within its range hypothesis the computed length / distance must lie within the
+        # PROVED bound 6 * 2^-53 * L of the real distance (the reference carries 60 digits)
+        diffs = [Fraction(c[j]) - Fraction(c[j + 4]) for j in range(3)]
+        if all(t == 0 or Fraction(1, 2 ** 500) <= abs(t) <= 2 ** 500 for t in diffs):
+            ck.tally("length:inside-the-proved-range")
+            for nm in ("length", "distance_to"):
+                v = vals[nm]
+                if isinstance(v, str):
+                    continue
+                L = ref["length"]
+                err = abs(Decimal(v) - L)
+                if err > Decimal(6) * Decimal(2) ** -53 * L:
+                    ck.witness("C12:%s:beyond-the-proved-rounding-bound" % nm, "%s is further than 6 * 2^-53 * L from the Euclidean "
+                               "distance although the inputs satisfy the range hypothesis of C12_float_rounding_length" % nm,
+                               input={"proximal": c[0:4], "distal": c[4:8], "class": tag}, expected="%.25E" % L, observed=repr(v),
+                               broken="Props_C12.v:C12_float_rounding_length")
+                elif L != 0:
+                    ck.extra["max_length_error_in_units_of_2^-53"] = max(ck.extra.get("max_length_error_in_units_of_2^-53", 0.0),
+                                                                         float(err / L * Decimal(2) ** 53))
+        # C12_float_rounding_volume / _area: frustum, non-negative diameters, everything zero or within 2^-300 .. 2^300
+        lo3, hi3 = Fraction(1, 2 ** 300), Fraction(2 ** 300)
+
+        def r300(t):
+            return t == 0 or lo3 <= abs(t) <= hi3
+        dp, dd_ = Fraction(c[3]), Fraction(c[7])
+        if any(t != 0 for t in diffs) and dp >= 0 and dd_ >= 0 and all(r300(t) for t in diffs + [dp, dd_]):
+            ck.tally("volume:inside-the-proved-range")
+            halves_ok = (c[3] / 2) * 2 == c[3] and (c[7] / 2) * 2 == c[7] and r300(dp / 2 - dd_ / 2)
+            for nm, cst, okr in (("volume", 16, True), ("area", 13, halves_ok)):
+                v = vals[nm]
+                if not okr or isinstance(v, str) or isinstance(ref[nm], str):
+                    continue
+                err = abs(Decimal(v) - ref[nm])
+                if err > Decimal(cst) * Decimal(2) ** -53 * ref[nm]:
+                    ck.witness("C12:%s:beyond-the-proved-rounding-bound" % nm, "%s is further than %d * 2^-53 relative from the frustum "
+                               "closed form although the inputs satisfy the hypotheses of C12_float_rounding_%s" % (nm, cst, nm),
+                               input={"proximal": c[0:4], "distal": c[4:8], "class": tag}, expected="%.25E" % ref[nm], observed=repr(v),
+                               broken="Props_C12.v:C12_float_rounding_%s" % nm)
+                elif ref[nm] != 0:
+                    kx = "max_%s_error_in_units_of_2^-53" % nm
+                    ck.extra[kx] = max(ck.extra.get(kx, 0.0), float(err / ref[nm] * Decimal(2) ** 53))
         if not close(vals["distance_to"], ref["length"]):
             ck.witness("C12:distance_to", "Point3DWithDiam.distance_to differs from the Euclidean distance",
                        input={"a": c[0:4], "b": c[4:8]}, expected='%.25E' % ref['length'], observed=repr(vals["distance_to"]),
